@@ -238,10 +238,21 @@ abbrev Rules := List (String × (Str → Option Str))
 
 def pinnedRules : Rules := pinned.map fun p => (p.1, p.2.2)
 
-/-- resolve a regenerated table against the pinned lexicon: every (name, source) must be a pinned one -/
+/-- index of the pinned rule with this name and regex source -/
+def pinnedIdx (n src : String) : Option Nat := pinned.findIdx? fun p => p.1 == n && p.2.1 == src
+
+/-- a regenerated table as indices into the pinned lexicon: every (name, source) must be a pinned one -/
+def resolveIdx (table : List (String × String)) : Option (List Nat) :=
+  table.mapM fun (n, src) => pinnedIdx n src
+
+def ruleAt (i : Nat) : String × (Str → Option Str) :=
+  match pinned[i]? with
+  | some p => (p.1, p.2.2)
+  | none => ("", fun _ => none)
+
+/-- resolve a regenerated table against the pinned lexicon, keeping the table's order -/
 def resolve (table : List (String × String)) : Option Rules :=
-  table.mapM fun (n, src) =>
-    (pinned.find? fun p => p.1 == n && p.2.1 == src).map fun p => (n, p.2.2)
+  (resolveIdx table).map fun idx => idx.map ruleAt
 
 /-- the lexicon of the CURRENT source, in its order; `none` when a rule is not one the model knows -/
 def activeRules : Option Rules := resolve Pyxv.Gen.lexerRules
@@ -312,6 +323,18 @@ def dynamicWith (rules : Rules) (dflt ty : Str) : Bool :=
 
 /-- `default_is_dynamic(element_default, element_type)`; `none` = lexer table outside the model -/
 def defaultIsDynamic (dflt ty : Str) : Option Bool := activeRules.map fun rules => dynamicWith rules dflt ty
+
+/-- the string sets of `default_is_dynamic` the property was stated for (pinned by
+    `Pyxv.C10.dynamic_sets_pinned`) -/
+def pinnedHyphenTypes : List String := ["date", "dateTime", "geopoint", "geotrace", "geoshape"]
+def pinnedDynNames : List String := ["OPS_MATH", "OPS_UNION", "XPATH_PRED", "PYXFORM_REF", "FUNC_CALL"]
+
+/-- the classification under the PINNED lexicon and sets: what "static" / "dynamic" mean in the
+    property's oracle; equals `defaultIsDynamic` as long as the pin theorems hold
+    (`Pyxv.C10.classification_is_pinned`) -/
+def dynamicPinned (dflt ty : Str) : Bool :=
+  if dflt.isEmpty then false
+  else dynLoop pinnedDynNames (pinnedHyphenTypes.contains (String.ofList ty)) (scanWith pinnedRules dflt).1
 
 /-! ## `validate_pyxform_reference_syntax` (token loop, pyxform_reference.py 31-60) -/
 
